@@ -37,39 +37,50 @@ inductive LineResult where
   | glob (g : GiGlob)
   deriving Repr
 
+/-- `if !line.ends_with("\\ ") { line = line.trim_right(); }` -/
+def trimLine (line0 : List Nat) : List Nat :=
+  if !endsWith line0 [92, 32] then trimRight line0 else line0
+
+/-- the `\!` / `\#`, `!`, leading `/` stage: (is_whitelist, is_absolute, rest of the line) -/
+def splitPrefix (line1 : List Nat) : Bool × Bool × List Nat :=
+  if startsWith line1 [92, 33] || startsWith line1 [92, 35] then
+    let l := line1.drop 1
+    (false, l.head? == some 47, l)
+  else
+    let wl : Bool × List Nat := if startsWith line1 [33] then (true, line1.drop 1) else (false, line1)
+    if startsWith wl.2 [47] then (wl.1, true, wl.2.drop 1) else (wl.1, false, wl.2)
+
+/-- trailing slash: directories only (and an escaping backslash before it is dropped) -/
+def splitDirSlash (line2 : List Nat) : Bool × List Nat :=
+  if line2.getLast? == some 47 then
+    let l := line2.dropLast
+    (true, if l.getLast? == some 92 then l.dropLast else l)
+  else (false, line2)
+
+/-- `glob.actual`: `**/` in front of a pattern without a literal slash, `/*` after a trailing `/**` -/
+def actualOf (isAbsolute : Bool) (line3 : List Nat) : List Nat :=
+  let actual1 :=
+    if !isAbsolute && !line3.contains 47 then
+      if startsWith line3 [42, 42, 47] || line3 == [42, 42] then line3
+      else [42, 42, 47] ++ line3
+    else line3
+  if endsWith actual1 [47, 42, 42] then actual1 ++ [47, 42] else actual1
+
+def giOpts (ci : Bool) : Opts := { ci := ci, ls := true, be := true, ea := false }
+
 /-- `GitignoreBuilder::add_line` -/
 def addLine (ci : Bool) (line0 : List Nat) : LineResult :=
   if startsWith line0 [35] then .skip else
-  let line1 := if !endsWith line0 [92, 32] then trimRight line0 else line0
+  let line1 := trimLine line0
   if line1.isEmpty then .skip else
-  -- `\!` / `\#`, `!`, leading `/`
-  let (isWhitelist, isAbsolute, line2) : Bool × Bool × List Nat :=
-    if startsWith line1 [92, 33] || startsWith line1 [92, 35] then
-      let l := line1.drop 1
-      (false, l.head? == some 47, l)
-    else
-      let (w, l) := if startsWith line1 [33] then (true, line1.drop 1) else (false, line1)
-      if startsWith l [47] then (w, true, l.drop 1) else (w, false, l)
-  -- trailing slash: directories only (and an escaping backslash before it is dropped)
-  let (isOnlyDir, line3) : Bool × List Nat :=
-    if line2.getLast? == some 47 then
-      let l := line2.dropLast
-      (true, if l.getLast? == some 92 then l.dropLast else l)
-    else (false, line2)
-  let actual0 := line3
-  -- no literal slash => may match at any depth
-  let actual1 :=
-    if !isAbsolute && !line3.contains 47 then
-      if startsWith actual0 [42, 42, 47] || actual0 == [42, 42] then actual0
-      else [42, 42, 47] ++ actual0
-    else actual0
-  let actual2 := if endsWith actual1 [47, 42, 42] then actual1 ++ [47, 42] else actual1
-  let opts : Opts := { ci := ci, ls := true, be := true, ea := false }
-  match parse opts actual2 with
+  let p := splitPrefix line1
+  let d := splitDirSlash p.2.2
+  let actual := actualOf p.2.1 d.2
+  match parse (giOpts ci) actual with
   | .error e => .err e
   | .ok toks =>
-    .glob { original := line1, actual := actual2, isWhitelist := isWhitelist, isOnlyDir := isOnlyDir,
-            glob := { opts := opts, tokens := toks } }
+    .glob { original := line1, actual := actual, isWhitelist := p.1, isOnlyDir := d.1,
+            glob := { opts := giOpts ci, tokens := toks } }
 
 /-- the globs of a builder after `add_line` on every line (errors are reported but do not stop the file) -/
 def buildGlobs (ci : Bool) (lines : List (List Nat)) : List GiGlob :=
